@@ -378,21 +378,11 @@ func (r *rwRT) ruleTmplBind() {
 func (r *rwRT) ruleTmplYieldFunc() {
 	c := r.c
 	c.min("RW.TMPL.YIELDFUNC", 2)
-	fn := r.method("yieldRewriter", "rewriteYieldFuncBody")
-	c.fn(relName(fn))
-	pos := r.w.FnPos(fn)
-	st := newState()
-	bodyRef, _ := r.heapNode(st, "BlockStmt", map[string]AV{"List": leafSym("body.List")})
-	in := r.interp(rwConfig{root: fn, blockOracles: true, boundaries: map[string]bool{"rewriteYieldFuncBody": false}})
-	in.Fields["r.funcBody"] = bodyRef
-	in.Fields["r.yieldAst.funRetParamTy"] = exprLeaf(r, "T")
-	outs := in.Run(st, fn, []AV{Sym{Name: "r", NN: true}}, nil)
-	r.account(in)
-	if len(outs) != 1 || outs[0].Panicked {
-		c.bad("RW.TMPL.YIELDFUNC", "generator body", pos, fmt.Sprintf("expected one path, got %d", len(outs)))
+	o, bodyRef, _, pos, derr := r.runYieldFunc()
+	if derr != nil {
+		c.bad("RW.TMPL.YIELDFUNC", "generator body", pos, derr.Error())
 		return
 	}
-	o := outs[0]
 	var order []string
 	var stmtsBlock, branchArg AV
 	for _, e := range o.St.Events {
@@ -791,4 +781,35 @@ func (r *rwRT) ruleConsumerDispatch() {
 			}
 		}
 	}
+}
+
+
+// runYieldFunc drives rewriteYieldFunc(funTy, body) — the entry point the per-file pass calls for every
+// generator — on a symbolic function type and body, whatever way it hands them on to its helpers
+// (fields of the rewriter or parameters). The four statement passes are boundary events.
+func (r *rwRT) runYieldFunc() (o Outcome, bodyRef, fieldRef Ref, pos string, err error) {
+	fn := r.method("yieldRewriter", "rewriteYieldFunc")
+	r.c.fn(relName(fn))
+	pos = r.w.FnPos(fn)
+	st := newState()
+	bodyRef, _ = r.heapNode(st, "BlockStmt", map[string]AV{"List": leafSym("body.List")})
+	fieldRef, _ = r.heapNode(st, "Field", map[string]AV{"Type": exprLeaf(r, "oldResult")})
+	resRef, _ := r.heapNode(st, "FieldList", map[string]AV{"List": SliceV{Elems: []AV{fieldRef}}})
+	ftRef, _ := r.heapNode(st, "FuncType", map[string]AV{"Results": resRef})
+	in := r.interp(rwConfig{root: fn, blockOracles: true, boundaries: map[string]bool{"rewriteYieldFunc": false, "rewriteYieldFuncBody": false, "rewriteYieldFuncResult": false}})
+	in.MaxDepth = 16
+	in.Fields["r.rewriter.seqImportedName"] = mkString("seq")
+	in.Fields["r.seqImportedName"] = mkString("seq")
+	in.OnCall = wrapOnCall(in.OnCall, func(cc *CallCtx) []Answer {
+		if cc.Fn != nil && inRw(cc.Fn) && cc.Fn.Name() == "yieldFuncRetParamTy" {
+			return []Answer{{Ret: []AV{exprLeaf(r, "T")}, NoEvent: true}}
+		}
+		return nil
+	})
+	outs := in.Run(st, fn, []AV{Sym{Name: "r", NN: true}, ftRef, bodyRef}, nil)
+	r.account(in)
+	if len(outs) != 1 || outs[0].Panicked {
+		return Outcome{}, bodyRef, fieldRef, pos, fmt.Errorf("rewriteYieldFunc on a symbolic generator: expected one path, got %d", len(outs))
+	}
+	return outs[0], bodyRef, fieldRef, pos, nil
 }
